@@ -11,6 +11,19 @@ KINDS = {"reject", "accept", "forward_shape", "forward_value"}
 
 def run(ctx):
     if ctx.replay:
+        import json
+        _rp = json.load(open(ctx.replay))["replay"] or {}
+        if _rp.get("spec") == "Ctor":
+            from ..vlib import repo
+            from .. import replay_ctor
+            bad = replay_ctor.check(repo.load(ctx.repo), _rp["case"])
+            for k, m in bad:
+                print("DIVERGENCE", k, m)
+            print("VIOLATION property=%s replay=%s" % (ctx.pid, ctx.replay) if bad else "replay: no divergence")
+            return 1 if bad else 0
+        if _rp.get("spec") == "Iter":
+            from .. import hist_common as HC
+            return HC.replay_file(ctx, ctx.replay, {"iter"}, "Iter", ("replay_iter", "IterReplayer"))
         return CC.replay_file(ctx, ctx.replay, KINDS)
     rep = core.Report(ctx, "model_checking", assumptions=[
         "operand values are exact-rational patterns; named real functions interpreted with mpmath",
@@ -19,6 +32,26 @@ def run(ctx):
     rep.rule = "every case emitted by TLC for the operation families, forward only, both dtypes, operator / function / method forms"
     cases = CC.tensor_cases(ctx, rep, with_grad=False)
     CC.replay(ctx, rep, cases, KINDS)
+    # constructors (spec/Ctor.tla): shape-argument forms, dtype, requires_grad, deterministic values
+    from ..vlib import tlc, repo
+    from .. import replay_ctor
+    import json as _json
+    w, cfg = tlc.make_mc("Ctor", dict(Sizes={1, 2, 3}, MaxRank=2 if ctx.quick else 3), invariants=["Emit", "ShapesPositive"])
+    res = tlc.run_tlc("Ctor", cfg, workers=1, wrapper=w, timeout=3000)
+    tlc.require_clean(res, "Ctor")
+    rep.tlc(res, "Ctor.tla: %d constructor cases" % len(res.cases))
+    sg = repo.load(ctx.repo)
+    for o in res.cases:
+        rep.case("ctor:" + _json.dumps(o["c"], sort_keys=True))
+        for key, msg in replay_ctor.check(sg, o):
+            rep.violation(key, msg, dict(spec="Ctor", case=o))
+    # iteration protocol: several simultaneous / nested iterations over one tensor (spec/Iter.tla)
+    from .. import hist_common as HC
+    for n in (1, 2, 3):
+        consts = dict(N=n, MaxCursors=2 if ctx.quick else 3, MaxHist=6 if ctx.quick else 7, Record=False)
+        HC.model_check(rep, "Iter", "Iter_mc_%d" % n, consts, ["CursorBound"], ["CursorsIndependent"])
+        mx, table, c = HC.emit(rep, "Iter", "iter-%d" % n, consts, limit=150000)
+        HC.replay_all(ctx, rep, mx, table, c, {"iter"}, ("replay_iter", "IterReplayer"), "Iter", label="iter%d:" % n)
     rep.exhaustive = True
     rep.extra["cases"] = len(cases)
     rep.extra["by_policy"] = {p: sum(1 for c in cases if c["pol"] == p) for p in ("MUST", "UNDEF", "MAY")}
